@@ -415,6 +415,19 @@ class Repo:
                 return self.resolve_expr(mod, ast.Attribute(value=e.args[0], attr=e.args[1].value, ctx=ast.Load()), _seen)
             return None
         if isinstance(e, ast.Subscript):
+            # vars(anp)["ravel"] / globals-like namespace dict of a module
+            if (
+                isinstance(e.value, ast.Call)
+                and isinstance(e.value.func, ast.Name)
+                and e.value.func.id == "vars"
+                and len(e.value.args) == 1
+                and not e.value.keywords
+                and isinstance(e.slice, ast.Constant)
+                and isinstance(e.slice.value, str)
+            ):
+                fr = self.resolve(mod, "vars", _seen)
+                if fr is None or fr.qual == "builtins.vars":
+                    return self.resolve_expr(mod, ast.Attribute(value=e.value.args[0], attr=e.slice.value, ctx=ast.Load()), _seen)
             # anp.__dict__["ravel"]
             if (
                 isinstance(e.value, ast.Attribute)
